@@ -261,6 +261,20 @@ def check_basic(res, name):
         K = type(r)
         b = K(r.region1, r.region2, operator.xor if r.operator is not operator.xor else operator.and_, meta=r.meta, visual=r.visual)
         _eq_calls(res, {'op': 'basic', 'name': name, 'sub': 'operator'}, r, b, False, 'compound with a different operator')
+        # operators that are different functions are different whatever they are called
+        mk = [lambda p, q: p & q, lambda p, q: p | q]
+        c1, c2 = (K(r.region1, r.region2, f, meta=r.meta, visual=r.visual) for f in mk)
+        _eq_calls(res, {'op': 'basic', 'name': name, 'sub': 'operator_lambda'}, c1, c2, False, 'compounds whose operators are two different anonymous functions')
+
+        def _named(fn):
+            def op(p, q):
+                return fn(p, q)
+            return op
+        d1, d2 = (K(r.region1, r.region2, _named(f), meta=r.meta, visual=r.visual) for f in (operator.and_, operator.or_))
+        _eq_calls(res, {'op': 'basic', 'name': name, 'sub': 'operator_same_name'}, d1, d2, False,
+                  'compounds whose operators are two different functions of the same name')
+        e1 = K(r.region1, r.region2, mk[0], meta=r.meta, visual=r.visual)
+        _eq_calls(res, {'op': 'basic', 'name': name, 'sub': 'operator_same_fn'}, c1, e1, True, 'compounds built from the same operator function')
     res.nontriv(('basic', name))
 
 
